@@ -2238,6 +2238,17 @@ func (p *Parser) peekRune() rune {
 	return r
 }
 
+// peekComment returns true if the next two runes that would be read by the
+// scanner start a comment.
+func (p *Parser) peekComment() bool {
+	r := p.s.s.r
+	ch0, _ := r.read()
+	ch1, _ := r.read()
+	r.unread()
+	r.unread()
+	return (ch0 == '/' && ch1 == '*') || (ch0 == '-' && ch1 == '-')
+}
+
 func (p *Parser) parseSource(subqueries bool) (Source, error) {
 	m := &Measurement{}
 
@@ -2844,13 +2855,29 @@ func (p *Parser) parseUnaryExpr() (Expr, error) {
 
 // parseRegex parses a regular expression.
 func (p *Parser) parseRegex() (*RegexLiteral, error) {
-	nextRune := p.peekRune()
-	if isWhitespace(nextRune) {
-		p.consumeWhitespace()
+	// Skip whitespace and comments before looking at the raw input: a comment
+	// starts with '/' or '-' and must not be mistaken for (or hide) a regex.
+	for {
+		if p.s.n > 0 {
+			// Tokens that were pushed back come before the raw input. A regex
+			// is never among them: it is only scanned on request below.
+			if tok, _, _ := p.Scan(); tok == WS || tok == COMMENT {
+				continue
+			}
+			p.Unscan()
+			return nil, nil
+		}
+		if isWhitespace(p.peekRune()) {
+			p.consumeWhitespace()
+		} else if p.peekComment() {
+			p.Scan()
+		} else {
+			break
+		}
 	}
 
 	// If the next character is not a '/', then return nils.
-	nextRune = p.peekRune()
+	nextRune := p.peekRune()
 	if nextRune == '$' {
 		// This might be a bound parameter and it might
 		// resolve to a regex.
